@@ -240,7 +240,94 @@ def run_model(exe, jobs, timeout=5400, par=NPROC):
     for lines in outs:
         for l in lines:
             res.append(l if l.startswith('!') else sx_load(l))
+    _recheck_collect(exe, jobs, res)
     return res
+
+
+# --------------------------------------------------------------------------
+# kernel re-evaluation of a sample of what the extracted models answered
+# (extraction, the OCaml compiler and ocaml/driver.ml are outside the kernel:
+# a deterministic sample of every model's (job, answer) pairs is evaluated
+# again by `vm_compute` inside Coq at the end of each check and compared
+# with the answer of the extracted program)
+
+RECHECK_PER_MODEL = int(os.environ.get('VERIF_RECHECK', '12'))
+RECHECK_MAX_CHARS = 5000
+_RECHECK = {}     # xname -> {'seen': n, 'rng': Random, 'keep': [(job, out)]}
+
+
+def _recheck_collect(exe, jobs, res):
+    m = re.search(r'/x/([A-Za-z0-9_]+)/model$', exe)
+    if not m or RECHECK_PER_MODEL <= 0:
+        return
+    st = _RECHECK.setdefault(m.group(1), {'seen': 0, 'rng': random.Random(12345), 'keep': []})
+    for j, o in zip(jobs, res):
+        if isinstance(o, str):
+            continue
+        try:
+            size = len(sx_dump(j)) + len(sx_dump(o))
+        except TypeError:
+            continue
+        if size > RECHECK_MAX_CHARS:
+            continue
+        st['seen'] += 1
+        if len(st['keep']) < RECHECK_PER_MODEL:
+            st['keep'].append((j, o))
+        else:                                   # reservoir sampling
+            k = st['rng'].randrange(st['seen'])
+            if k < RECHECK_PER_MODEL:
+                st['keep'][k] = (j, o)
+
+
+def kernel_recheck(prop):
+    """-> (summary dict, list of mismatch descriptions)"""
+    from concurrent.futures import ThreadPoolExecutor
+    d = os.path.join(BUILD, 'recheck', prop)
+    shutil.rmtree(d, ignore_errors=True)
+    os.makedirs(d, exist_ok=True)
+    work = []
+    for xname, st in sorted(_RECHECK.items()):
+        for i, (j, o) in enumerate(st['keep']):
+            path = os.path.join(d, f'R{xname}{i}.v')
+            open(path, 'w').write(
+                'From Coq Require Import ZArith List.\nImport ListNotations.\n'
+                f'From QV Require Import Sx.\nFrom QV Require X{xname}.\nOpen Scope Z_scope.\n'
+                f'Definition job : sx := {sx_gallina(j)}.\n'
+                f'Definition answer : sx := {sx_gallina(o)}.\n'
+                'Goal True.\n'
+                f'  let x := eval vm_compute in (X{xname}.entry job) in\n'
+                '  let y := eval vm_compute in answer in\n'
+                '  first [ constr_eq x y; idtac "RECHECK-OK" | idtac "RECHECK-MISMATCH" x ].\n'
+                '  exact I.\nQed.\n')
+            work.append((xname, i, path))
+
+    def one(w):
+        xname, i, path = w
+        try:
+            rc, out = _run(['timeout', '60', 'coqc', '-Q', COQ, 'QV', '-w', '-all', path],
+                           cwd=d, timeout=90)
+        except subprocess.TimeoutExpired:
+            return w, 'timeout', ''
+        if 'RECHECK-OK' in out and rc == 0:
+            return w, 'ok', ''
+        if 'RECHECK-MISMATCH' in out:
+            return w, 'mismatch', out[-1500:]
+        if rc == 124:
+            return w, 'timeout', ''
+        return w, 'error', out[-1500:]
+    summary, bad = {}, []
+    with Lock():
+        with ThreadPoolExecutor(max_workers=NPROC) as ex:
+            for (xname, i, path), verdict, out in ex.map(one, work):
+                s = summary.setdefault(xname, {'sampled_from': _RECHECK[xname]['seen'],
+                                               'ok': 0, 'timeout': 0, 'mismatch': 0, 'error': 0})
+                s[verdict] += 1
+                if verdict in ('mismatch', 'error'):
+                    j, o = _RECHECK[xname]['keep'][i]
+                    bad.append({'model': xname, 'verdict': verdict, 'job': j,
+                                'extracted_answer': o, 'coq_output': out})
+    shutil.rmtree(d, ignore_errors=True)
+    return summary, bad
 
 
 # --------------------------------------------------------------------------
@@ -353,6 +440,15 @@ class Ctx:
         self.checker_cmd = (f'cd {COQ} && make -j{NPROC} Props/{prop}.vo && '
                             f'coqc -Q . QV Props/{prop}.v  (Coq 8.16.1, full .vo build)')
         with Lock():
+            # translator tie (T-gen): coq/Gen/Instrs.v is regenerated from the imported
+            # repository on every run (rewritten only when its content changes)
+            try:
+                sys.path.insert(0, os.path.join(VERIF, 'tools'))
+                import gen_tables
+                gen_tables.main(REPO)
+                self.extra['gen_tables'] = 'coq/Gen/Instrs.v regenerated from ' + REPO
+            except Exception as e:      # GenError, import failure of the repository
+                self.broken.append(f'translator tie gen_tables failed: {str(e)[-400:]}')
             ok, log = coq_make([f'Props/{prop}.vo'] + list(targets or []))
             if ok:
                 ok2, thms, assum, out = coq_props(prop)
@@ -412,6 +508,19 @@ class Ctx:
     def finish(self, explanation=''):
         os.makedirs(os.path.join(VERIF, 'evidence'), exist_ok=True)
         os.makedirs(os.path.join(VERIF, 'replays'), exist_ok=True)
+        if _RECHECK and not any('Coq build' in b for b in self.broken):
+            summary, bad = kernel_recheck(self.prop)
+            self.extra['kernel_recheck'] = summary
+            self.extra['kernel_recheck_rule'] = (
+                f'deterministic reservoir sample of at most {RECHECK_PER_MODEL} (job, answer) pairs '
+                f'per extracted model (pairs up to {RECHECK_MAX_CHARS} characters) re-evaluated by '
+                'vm_compute inside Coq and compared with the answer of the extracted OCaml program; '
+                'timeout = 60 s per pair, counted, not judged')
+            for b in bad[:3]:
+                self.broken.append(f"extraction tie: kernel evaluation of X{b['model']}.entry "
+                                   f"{b['verdict']} against the extracted program's answer")
+            if bad:
+                self.extra['kernel_recheck_failures'] = bad[:3]
         lines = []
         for f in self.findings:
             if f.get('status') == 'open' and f['id'] in self.known_hits:
